@@ -8,6 +8,7 @@ import (
 	"strconv"
 	"strings"
 
+	"github.com/icon-project/goloop/common"
 	"github.com/icon-project/goloop/common/codec"
 	"github.com/icon-project/goloop/common/crypto"
 	"github.com/icon-project/goloop/common/wallet"
@@ -117,6 +118,7 @@ type c32Runner struct {
 	started  bool
 	existing []c32Existing // peers of this case that were handed over and stay connected
 	prev     []byte        // secret of the previous session of this case
+	curKey   int           // key the current session's peer proved at hand-over (-1: none)
 	s      *network.VerifC32Session
 	w      module.Wallet
 	in     bool
@@ -329,6 +331,7 @@ func (r *c32Runner) deliver(o *Oracle, sub uint16, payload []byte, what string, 
 	isSig := what == "sigreq" || what == "sigresp"
 	proof := isSig && pubKey >= 0 && si.key == pubKey && si.content == "t" && !errFlag
 	if handed {
+		r.curKey = pubKey
 		o.Count("handed-" + what)
 		o.Check(r.s.HandOverCount() == before+1, "c32-handed-twice", "nextOnPeer called %d times", r.s.HandOverCount()-before)
 		o.Check(isSig, "c32-identity-without-signature-message", "peer handed over by a %s message", what)
@@ -369,6 +372,27 @@ func (r *c32Runner) deliver(o *Oracle, sub uint16, payload []byte, what string, 
 		}
 	}
 	return out
+}
+
+// checkIdentities re-reads the id of every peer that was handed over earlier in
+// this case and compares it with the address of the key it proved then
+// (computed without the peer-id cache).
+func (r *c32Runner) checkIdentities(o *Oracle) {
+	check := func(s *network.VerifC32Session, key int) {
+		want := common.NewAccountAddressFromPublicKey(c32Key(key).PublicKey()).ID()
+		_, _, hid, id, _, _, _ := s.State()
+		o.Check(bytes.Equal(id, want) && bytes.Equal(hid, want), "c32-assigned-identity-changed-later",
+			"peer authenticated with key %d now reports id %x / %x, the key's address is %x", key, id, hid, want)
+		o.Count("identity-rechecked")
+	}
+	for _, e := range r.existing {
+		check(e.s, e.key)
+	}
+	if r.s != nil && r.curKey >= 0 {
+		if closed, handed, _, _, _, _, _ := r.s.State(); handed && !closed {
+			check(r.s, r.curKey)
+		}
+	}
 }
 
 func (r *c32Runner) Step(t []string, o *Oracle) string {
@@ -413,6 +437,42 @@ func (r *c32Runner) Step(t []string, o *Oracle) string {
 		}
 		o.Count("vs-err-invalid")
 		return "err-invalid " + c32IDStr(id.Bytes())
+	case "idfill":
+		if len(t) != 3 {
+			return "bad-op"
+		}
+		a, e1 := strconv.ParseUint(t[1], 10, 16)
+		n, e2 := strconv.ParseUint(t[2], 10, 16)
+		if e1 != nil || e2 != nil || a < 1000 || a+n >= 65536 || n > 1000 {
+			return "bad-op"
+		}
+		for k := a; k < a+n; k++ {
+			// the path VerifySignature takes for every connecting peer
+			network.NewPeerIDFromPublicKey(c32Key(int(k)).PublicKey())
+		}
+		o.Count("idfill")
+		r.checkIdentities(o)
+		return "ok"
+	case "ids":
+		if len(t) != 1 {
+			return "bad-op"
+		}
+		r.checkIdentities(o)
+		var ss []string
+		for _, e := range r.existing {
+			_, _, _, id, _, _, _ := e.s.State()
+			ss = append(ss, c32IDStr(id))
+		}
+		if r.s != nil {
+			closed, handed, _, id, _, _, _ := r.s.State()
+			if handed && !closed {
+				ss = append(ss, c32IDStr(id))
+			}
+		}
+		if len(ss) == 0 {
+			return "ids -"
+		}
+		return "ids " + strings.Join(ss, ",")
 	case "sess":
 		if len(t) != 2 || (t[1] != "0" && t[1] != "1") {
 			return "bad-op"
@@ -430,12 +490,13 @@ func (r *c32Runner) Step(t []string, o *Oracle) string {
 		if r.s != nil {
 			r.prev = r.s.LocalExtra()
 			closed, handed, hid, _, _, _, _ := r.s.State()
-			if handed && !closed {
+			if handed && !closed && r.curKey >= 0 {
 				// stays connected: an "existing peer" for the sessions that follow
-				r.existing = append(r.existing, c32Existing{r.s, c32IDs[string(hid)], hid})
+				r.existing = append(r.existing, c32Existing{r.s, r.curKey, append([]byte{}, hid...)})
 			}
 		}
 		r.w, r.in, r.other, r.secure, r.aead = w, t[1] == "1", nil, false, 0
+		r.curKey = -1
 		r.s = network.VerifC32NewSession(w, r.in)
 		c32LiveAll = append(c32LiveAll, r.s)
 		return r.render(o)
@@ -573,8 +634,48 @@ func c32GenSecResp(g *Gen) string {
 	return fmt.Sprintf("secresp %d %d %s %d", suite, aead, param, e)
 }
 
+// c32GenIDCache: peers are authenticated and stay connected, then more distinct
+// peer ids than the global peer-id cache holds (peerIDCacheSize = 100) pass
+// through NewPeerIDFromPublicKey - by plain calls and by further handshakes -
+// and the ids of the earlier peers are read again.
+func c32GenIDCache(g *Gen) {
+	base := 1000 + g.Intn(50)*300
+	for k := 1; k <= 3; k++ {
+		in := g.Intn(2)
+		g.Emit("sess %d", in)
+		if in == 1 {
+			g.Emit("secreq 1 1 ok")
+			g.Emit("sigreq k%dc g%d.t.r", k, k)
+		} else {
+			g.Emit("secresp 1 0 ok 0")
+			g.Emit("sigresp k%du g%d.t.s 0", k, k)
+		}
+	}
+	g.Emit("ids")
+	g.Emit("idfill %d %d", base, g.Pick(99, 100, 101, 130))
+	g.Emit("ids")
+	// further handshakes with distinct (failing and succeeding) claimed keys
+	for i := 0; i < 12; i++ {
+		k := base + 200 + i
+		g.Emit("sess 1")
+		g.Emit("secreq 1 1 ok")
+		if i%3 == 0 {
+			g.Emit("sigreq k%dc g%d.o.r", k, k)
+		} else {
+			g.Emit("sigreq k%dc g%d.t.r", k, k)
+		}
+	}
+	g.Emit("idfill %d 130", base+30)
+	g.Emit("ids")
+	g.Emit("reset")
+}
+
 func c32Gen(g *Gen) {
 	for c := 0; c < g.N; c++ {
+		if c == 0 || (g.Tier == "thorough" && g.Intn(400) == 0) {
+			c32GenIDCache(g)
+			continue
+		}
 		if g.Intn(4) == 0 {
 			// VerifySignature directly
 			for i := 0; i < 4; i++ {
